@@ -14,7 +14,7 @@ pub static DEF: PropDef = PropDef {
     rule: "exhaustive: every string up to the stated length over {a,SP,TAB,NL,',\",\\,é} x EVERY cut set of its byte stream (each string is one case, evaluations count string x cut-set pairs); random: byte strings up to ~20 KiB (tokens straddling the 4096-byte refill edge, long quoted runs, arbitrary bytes incl. invalid UTF-8, CR/FF/VT) x generated chunkings (1-byte, after-backslash, inside quotes, inside multi-byte characters, 4096-aligned), default mode and -0/-d C. Oracles: (i) chunking invariance against the single-read result, (ii) reference splitter written from the statement on its specified sub-domain, (iii) delimiter mode = non-empty fields, bytes unchanged; 1 in 30 random inputs also through the xargs binary + rec. Non-trivial = input has a quote or backslash (delimiter mode: a quote, backslash or non-UTF-8 byte) AND some cut falls inside a token / multi-byte character / at the 4096 edge. Distinct = distinct case JSON.",
     assumptions: &[
         "the readers are reached through the feature-gated hook xargs::verif_hooks::read_args (the Read it wraps hands out caller-chosen chunk sizes); the end-to-end sample goes through the real binary and pipe",
-        "an empty quoted string standing alone, a backslash at end of input, are outside the reference splitter's domain (the statement does not fix them) but inside the chunking-invariance check; CR, FF and VT are neither blanks nor newlines: ordinary bytes of an argument",
+        "a backslash at end of input is outside the reference splitter's domain (the statement does not fix them) but inside the chunking-invariance check; CR, FF and VT are neither blanks nor newlines: ordinary bytes of an argument",
     ],
     run,
     replay,
@@ -53,11 +53,11 @@ pub fn reference_split(input: &[u8]) -> Ref {
             escaped = true;
             started = true;
         } else if c == b' ' || c == b'\t' || c == b'\n' {
-            if !tok.is_empty() {
+            // a token that was begun by a quote is an argument even when nothing is between the
+            // quotes: '' is taken literally, as the empty string
+            if started {
                 out.push((std::mem::take(&mut tok), c == b'\n'));
                 started = false;
-            } else if started {
-                return Ref::Unspecified; // empty quoted token
             }
         } else {
             tok.push(c);
@@ -70,10 +70,8 @@ pub fn reference_split(input: &[u8]) -> Ref {
     if escaped {
         return Ref::Unspecified;
     }
-    if !tok.is_empty() {
+    if started {
         out.push((tok, false));
-    } else if started {
-        return Ref::Unspecified;
     }
     Ref::Tokens(out)
 }
